@@ -1,6 +1,6 @@
 (* C20 — Lazily initialised shared state is safe under every thread interleaving.  Statements only. *)
-From Coq Require Import List Arith Bool.
-From KV Require Import Base.Sx Gen.Generated Model.LazyInit Proofs.LazyInitP.
+From Coq Require Import List Arith Bool ZArith Permutation.
+From KV Require Import Base.Sx Gen.Generated Model.LazyInit Proofs.LazyInitP Model.TaskGraph Proofs.TaskGraphP.
 Import ListNotations.
 Close Scope Z_scope.
 Open Scope nat_scope.
@@ -48,18 +48,38 @@ Theorem C20_sites_locked :
 Proof. exact sites_locked. Qed.
 Print Assumptions C20_sites_locked.
 
-(* hence, e.g., DaskLazyIndexer.dataset under any interleaving of any number of threads *)
+(* the guard objects: one lock per object, created in __init__ and never replaced, of the modelled kind; no method but
+   the constructor touches a guarded field outside its lock (SensorCache: only the listed dict-level methods); the pool
+   starts empty, `with pool() as s` is get / use / put, and S3ChunkStore.request sends through the session it borrowed *)
+Theorem C20_lock_discipline :
+  (site_dask_lock_kind = 1%Z /\ site_dask_lock_once = true /\ only_init site_dask_unlocked_methods = true) /\
+  (site_spw_lock_kind = 1%Z /\ site_spw_lock_once = true /\ only_init site_spw_unlocked_methods = true) /\
+  (sensor_lock_kind = 2%Z /\ sensor_lock_once = true /\ all_allowed sensor_unlocked_methods = true) /\
+  (pool_lock_kind = 1%Z /\ pool_lock_once = true /\ only_init pool_unlocked_methods = true) /\
+  pool_init_empty = true /\ pool_call_ok = true /\ s3_request_session_from_pool = true.
+Proof. exact lock_discipline. Qed.
+Print Assumptions C20_lock_discipline.
+
+(* hence each site, from its freshly constructed state, under any interleaving of any number of threads: nothing raises,
+   every thread that has returned holds the single-thread value f s0, the value was computed exactly once *)
 Theorem C20_dask_dataset_safe : forall (S V : Type) (f : S -> V) s0 schedule,
   let c := exec S V f site_dask (mkSh None (Some s0) 0) schedule in
-  (forall t, c_th c t <> Failed) /\ (forall t lo, c_th c t = Done lo -> lres lo = Some (f s0)).
-Proof.
-  intros S V f s0 schedule c.
-  destruct (guarded_lazy_init_safe S V f s0 false site_dask (mkSh None (Some s0) 0) schedule
-              (site_dask_serial_ok S V f s0)) as (A & B & _).
-  - left. repeat split; reflexivity.
-  - split; [exact A|exact B].
-Qed.
+  (forall t, c_th c t <> Failed) /\ (forall t lo, c_th c t = Done lo -> lres lo = Some (f s0)) /\
+  (c_lock c = None -> c_hist c <> [] -> ncomp (c_sh c) = 1).
+Proof. exact dask_dataset_safe. Qed.
 Print Assumptions C20_dask_dataset_safe.
+Theorem C20_spw_channel_freqs_safe : forall (S V : Type) (f : S -> V) s0 schedule,
+  let c := exec S V f site_spw (mkSh None (Some s0) 0) schedule in
+  (forall t, c_th c t <> Failed) /\ (forall t lo, c_th c t = Done lo -> lres lo = Some (f s0)) /\
+  (c_lock c = None -> c_hist c <> [] -> ncomp (c_sh c) = 1).
+Proof. exact spw_channel_freqs_safe. Qed.
+Print Assumptions C20_spw_channel_freqs_safe.
+Theorem C20_sensor_get_safe : forall (S V : Type) (f : S -> V) s0 schedule,
+  let c := exec S V f site_sensor_get (mkSh None (Some s0) 0) schedule in
+  (forall t, c_th c t <> Failed) /\ (forall t lo, c_th c t = Done lo -> lres lo = Some (f s0)) /\
+  (c_lock c = None -> c_hist c <> [] -> ncomp (c_sh c) = 1).
+Proof. exact sensor_get_safe. Qed.
+Print Assumptions C20_sensor_get_safe.
 
 (* the lock is necessary: the same body without mutual exclusion fails on a concrete 2-thread schedule *)
 Theorem C20_unlocked_refuted :
@@ -80,10 +100,69 @@ Theorem C20_rlock_excludes : forall h t d, h <> t ->
 Proof. exact rlock_excludes. Qed.
 Print Assumptions C20_rlock_excludes.
 
-(* session pool: after ANY sequence of get/put operations by any threads, no item is lent twice or both lent
-   and free (NoDup over free ++ held), and every item was produced by the factory *)
+(* instantiating a virtual sensor: the creating function runs inside SensorCache.get's `with self._lock:` and calls
+   cache.get / cache[...] = ... itself.  With the lock kind found in the source every well-bracketed nest of critical
+   sections by the holder goes through and leaves the lock free; with a plain Lock the first nested lookup never returns *)
+Theorem C20_virtual_sensor_nesting : forall t prog, bracketed 0 prog = true ->
+  run_nest sensor_lock_kind None t prog = Some None.
+Proof. exact nested_ok. Qed.
+Print Assumptions C20_virtual_sensor_nesting.
+Theorem C20_plain_lock_nesting_refuted : exists prog, bracketed 0 prog = true /\ run_nest 1 None 0 prog = None.
+Proof. exact nested_plain_lock_refuted. Qed.
+Print Assumptions C20_plain_lock_nesting_refuted.
+
+(* session pool, with get/put AS TRANSLATED from _Pool (which end of the list, which branch of the emptiness test):
+   after ANY sequence of get/put operations by any threads nothing has raised, no item is lent twice or both lent and
+   free (NoDup over free ++ held), and every item was produced by the factory *)
 Theorem C20_pool_exclusive : forall ops,
   let p := fold_left pool_step ops pool_init in
-  NoDup (p_free p ++ map snd (p_held p)) /\ forall x, In x (p_free p ++ map snd (p_held p)) -> x < p_next p.
+  p_err p = false /\ NoDup (p_free p ++ map snd (p_held p)) /\
+  forall x, In x (p_free p ++ map snd (p_held p)) -> x < p_next p.
 Proof. exact pool_exclusive. Qed.
 Print Assumptions C20_pool_exclusive.
+Theorem C20_pool_peek_refuted : exists ops, ~ NoDup (items (fold_left (pool_step_c 0 3 0) ops pool_init)).
+Proof. exact pool_peek_refuted. Qed.
+Print Assumptions C20_pool_peek_refuted.
+Theorem C20_pool_inverted_test_refuted : exists ops, p_err (fold_left (pool_step_c 1 0 0) ops pool_init) = true.
+Proof. exact pool_inverted_refuted. Qed.
+Print Assumptions C20_pool_inverted_test_refuted.
+
+(* ---------- "Loading data with the multi-threaded scheduler returns the same arrays as a single-threaded load" ---------- *)
+(* A load is the evaluation of a task graph listed in topological order whose tasks are functions of their dependencies'
+   results (chunk reads: of nothing).  crun is dask's local scheduler for ANY number of workers: an arbitrary list of
+   Start w i (hand task i and the cached results of its dependencies to worker w) / Finish w (publish w's result).
+   SAFETY: whatever the schedule, every published result is the single-threaded one. *)
+Theorem C20_sched_sound : forall (V : Type) (g : graph V) es i v,
+  wf V g = true -> c_done (crun V g es) i = Some v -> seq_run V g i = Some v.
+Proof. exact sched_sound. Qed.
+Print Assumptions C20_sched_sound.
+(* THE CLAUSE: a finished load under any schedule of any number of workers returns, for every task (hence for the output
+   arrays), what the one-worker, one-task-at-a-time load returns *)
+Theorem C20_threaded_load_eq_single : forall (V : Type) (g : graph V) es,
+  wf V g = true -> all_done V g (crun V g es) = true ->
+  forall i, i < length g -> c_done (crun V g es) i = c_done (crun V g (sync_events (length g))) i.
+Proof. exact threaded_eq_single. Qed.
+Print Assumptions C20_threaded_load_eq_single.
+Theorem C20_sync_is_sequential : forall (V : Type) (g : graph V),
+  wf V g = true -> forall i, c_done (crun V g (sync_events (length g))) i = seq_run V g i.
+Proof. exact sync_is_seq. Qed.
+Print Assumptions C20_sync_is_sequential.
+(* no task is handed out twice; an unfinished load can always continue (no schedule deadlocks the scheduler) *)
+Theorem C20_sched_once : forall (V : Type) (g : graph V) es, wf V g = true -> NoDup (c_started (crun V g es)).
+Proof. exact sched_once. Qed.
+Print Assumptions C20_sched_once.
+Theorem C20_sched_progress : forall (V : Type) (g : graph V) es, wf V g = true ->
+  let s := crun V g es in all_done V g s = true \/ exists e, fire V g s e <> None.
+Proof. exact sched_progress. Qed.
+Print Assumptions C20_sched_progress.
+(* the output stage (da.store(..., lock=False) in DaskLazyIndexer.get): cell writes to pairwise distinct positions give
+   the same array in ANY order, i.e. for any interleaving of the chunk tasks at element granularity; distinctness is
+   necessary *)
+Theorem C20_store_order_independent : forall (V : Type) ws ws' (t : vmap V),
+  NoDup (map fst ws) -> Permutation ws ws' -> forall p, apply_writes V ws t p = apply_writes V ws' t p.
+Proof. exact writes_order_independent. Qed.
+Print Assumptions C20_store_order_independent.
+Theorem C20_store_overlap_refuted :
+  exists ws ws' p, Permutation ws ws' /\ apply_writes nat ws (vempty nat) p <> apply_writes nat ws' (vempty nat) p.
+Proof. exact writes_overlap_refuted. Qed.
+Print Assumptions C20_store_overlap_refuted.
